@@ -41,7 +41,8 @@ impl Sandbox {
         spec.root = self.fs().to_string_lossy().into_owned();
         spec.quiet = true;
         std::fs::write(&spec_path, serde_json::to_vec(&spec).unwrap()).unwrap();
-        let exe = std::env::current_exe().unwrap();
+        // the running image itself (stays valid if the file on disk is replaced by a rebuild meanwhile)
+        let exe = std::path::PathBuf::from("/proc/self/exe");
         // children that prove run side by side with other children: bound their rayon pools
         let status = Command::new(exe).arg("child").arg(&spec_path).env("RAYON_NUM_THREADS", if spec.rayon_threads > 0 { spec.rayon_threads.to_string() } else { "4".into() }).status().expect("cannot spawn child");
         let result: Option<ChildResult> = std::fs::read(&out_path).ok().and_then(|b| serde_json::from_slice(&b).ok());
